@@ -1,12 +1,923 @@
-//! C15 — stub (not built yet).
+//! C15 — Lagrange and Hermite interpolants reproduce their data and are unique.
+//!
+//! Reference: the (confluent) Vandermonde matrix V of the nodes, built here; its 2-norm condition
+//! number kappa (nalgebra SVD) scales every bound; the reference coefficients are V^-1 data with the
+//! inverse computed by the harness in double-double arithmetic (the nalgebra SVD solve turned out to
+//! be accurate to 1e-8 only on symmetric node sets). Nothing of the Neville / divided-difference
+//! machinery under test is reproduced.
+//! Observations: order(), get_coefficient(k), evaluate / evaluate_derivative at the nodes, for the
+//! points in the generated order, sorted, reversed and randomly permuted.
+
+use crate::json::J;
+use crate::probe::{self, Guarded};
 use crate::report::*;
+use crate::rng::{CaseHash, Rng};
+use bacon_sci::interp::{hermite, lagrange};
+use bacon_sci::polynomial::Polynomial;
+use nalgebra::{ComplexField, DMatrix};
+use num_complex::Complex;
+use num_traits::FromPrimitive;
+
+const EPS: f64 = f64::EPSILON;
+type C64 = Complex<f64>;
+
+// ---- frozen constants. Units: u_c = eps kappa |cref|_inf (coefficients), u_d = eps kappa max|data| (node residuals).
+// Observed maxima over 8 seeds x 200 000 cases (thorough) in brackets; the ratios have a heavy tail (kappa
+// over-estimates the sensitivity in most directions), so the constants are >= 10 x the largest value seen.
+/// Lagrange coefficients: |c_k - cref_k| <= KL u_c + TF tol                                         [10.4]
+const KL: f64 = 128.0;
+/// Lagrange node values: |p(x_i) - y_i| <= KLN u_d + TF tol sum_k |x_i|^k                            [26.9]
+const KLN: f64 = 256.0;
+/// Hermite coefficients (divided differences with doubled nodes are not backward stable in the
+/// Vandermonde sense, hence the larger constant): |c_k - cref_k| <= KH u_c + TF tol                  [104.9]
+const KH: f64 = 1024.0;
+/// Hermite node values and derivatives: |p(x_i) - y_i| <= KHN u_d + TF tol sum_k |x_i|^k,
+/// |p'(x_i) - d_i| <= KHN u_d + TF tol sum_k k |x_i|^(k-1)                                            [1.2 / 3.3]
+const KHN: f64 = 64.0;
+/// coefficient-zeroing: real coefficients below tol are zeroed; complex leading coefficients are purged when
+/// both components are <= tol, i.e. modulus up to sqrt(2) tol
+const TF_REAL: f64 = 1.0;
+const TF_COMPLEX: f64 = 1.5;
+/// reordering the points may change the coefficients by at most PERM x the coefficient bound
+const PERM: f64 = 2.0;
+
+// ------------------------------------------------------------------ field abstraction
+
+trait Fld: ComplexField<RealField = f64> + FromPrimitive + Copy + 'static {
+    const NAME: &'static str;
+    const COMPLEX: bool;
+    fn mk(v: C64) -> Self;
+    fn c(self) -> C64;
+}
+impl Fld for f64 {
+    const NAME: &'static str = "f64";
+    const COMPLEX: bool = false;
+    fn mk(v: C64) -> f64 {
+        v.re
+    }
+    fn c(self) -> C64 {
+        C64::new(self, 0.0)
+    }
+}
+impl Fld for C64 {
+    const NAME: &'static str = "Complex<f64>";
+    const COMPLEX: bool = true;
+    fn mk(v: C64) -> C64 {
+        v
+    }
+    fn c(self) -> C64 {
+        self
+    }
+}
+
+fn zc() -> C64 {
+    C64::new(0.0, 0.0)
+}
+fn cs_json(v: &[C64], complex: bool) -> J {
+    if complex {
+        J::Arr(v.iter().map(|z| J::fs(&[z.re, z.im])).collect::<Vec<_>>())
+    } else {
+        J::fs(&v.iter().map(|z| z.re).collect::<Vec<_>>())
+    }
+}
+
+// ------------------------------------------------------------------ double-double arithmetic
+
+/// Double-double (about 31 significant digits) real and complex arithmetic with error-free
+/// transformations (Dekker / Knuth; the product uses the fused multiply-add), and a complex
+/// Gauss-Jordan inversion with partial pivoting on top of it.
+mod dd {
+    use super::C64;
+
+    #[derive(Clone, Copy, Debug)]
+    pub struct Dd {
+        pub hi: f64,
+        pub lo: f64,
+    }
+    fn two_sum(a: f64, b: f64) -> (f64, f64) {
+        let s = a + b;
+        let bb = s - a;
+        (s, (a - (s - bb)) + (b - bb))
+    }
+    fn quick_two_sum(a: f64, b: f64) -> (f64, f64) {
+        let s = a + b;
+        (s, b - (s - a))
+    }
+    fn two_prod(a: f64, b: f64) -> (f64, f64) {
+        let p = a * b;
+        (p, a.mul_add(b, -p))
+    }
+    impl Dd {
+        pub fn new(x: f64) -> Dd {
+            Dd { hi: x, lo: 0.0 }
+        }
+        pub fn add(self, o: Dd) -> Dd {
+            let (s, e) = two_sum(self.hi, o.hi);
+            let (t, f) = two_sum(self.lo, o.lo);
+            let (s, e) = quick_two_sum(s, e + t);
+            let (hi, lo) = quick_two_sum(s, e + f);
+            Dd { hi, lo }
+        }
+        pub fn neg(self) -> Dd {
+            Dd { hi: -self.hi, lo: -self.lo }
+        }
+        pub fn sub(self, o: Dd) -> Dd {
+            self.add(o.neg())
+        }
+        pub fn mul(self, o: Dd) -> Dd {
+            let (p, e) = two_prod(self.hi, o.hi);
+            let e = e + (self.hi * o.lo + self.lo * o.hi);
+            let (hi, lo) = quick_two_sum(p, e);
+            Dd { hi, lo }
+        }
+        pub fn div(self, o: Dd) -> Dd {
+            let q1 = self.hi / o.hi;
+            let r = self.sub(o.mul(Dd::new(q1)));
+            let q2 = r.hi / o.hi;
+            let r = r.sub(o.mul(Dd::new(q2)));
+            let q3 = r.hi / o.hi;
+            let (s, e) = quick_two_sum(q1, q2);
+            Dd { hi: s, lo: e }.add(Dd::new(q3))
+        }
+        pub fn to_f64(self) -> f64 {
+            self.hi + self.lo
+        }
+    }
+
+    #[derive(Clone, Copy, Debug)]
+    pub struct Cdd {
+        pub re: Dd,
+        pub im: Dd,
+    }
+    impl Cdd {
+        pub fn zero() -> Cdd {
+            Cdd { re: Dd::new(0.0), im: Dd::new(0.0) }
+        }
+        pub fn one() -> Cdd {
+            Cdd { re: Dd::new(1.0), im: Dd::new(0.0) }
+        }
+        pub fn from_c(z: C64) -> Cdd {
+            Cdd { re: Dd::new(z.re), im: Dd::new(z.im) }
+        }
+        pub fn to_c(self) -> C64 {
+            C64::new(self.re.to_f64(), self.im.to_f64())
+        }
+        pub fn add(self, o: Cdd) -> Cdd {
+            Cdd { re: self.re.add(o.re), im: self.im.add(o.im) }
+        }
+        pub fn sub(self, o: Cdd) -> Cdd {
+            Cdd { re: self.re.sub(o.re), im: self.im.sub(o.im) }
+        }
+        pub fn mul(self, o: Cdd) -> Cdd {
+            Cdd { re: self.re.mul(o.re).sub(self.im.mul(o.im)), im: self.re.mul(o.im).add(self.im.mul(o.re)) }
+        }
+        pub fn scale(self, k: f64) -> Cdd {
+            Cdd { re: self.re.mul(Dd::new(k)), im: self.im.mul(Dd::new(k)) }
+        }
+        pub fn div(self, o: Cdd) -> Cdd {
+            let den = o.re.mul(o.re).add(o.im.mul(o.im));
+            let num = self.mul(Cdd { re: o.re, im: o.im.neg() });
+            Cdd { re: num.re.div(den), im: num.im.div(den) }
+        }
+        pub fn mag(self) -> f64 {
+            self.to_c().norm()
+        }
+    }
+
+    /// inverse of the m x m matrix `a` (row-major) by Gauss-Jordan elimination with partial pivoting
+    pub fn invert(a: &[Cdd], m: usize) -> Option<Vec<Cdd>> {
+        let w = 2 * m;
+        let mut t = vec![Cdd::zero(); m * w];
+        for i in 0..m {
+            for j in 0..m {
+                t[i * w + j] = a[i * m + j];
+            }
+            t[i * w + m + i] = Cdd::one();
+        }
+        for k in 0..m {
+            let mut p = k;
+            let mut best = t[k * w + k].mag();
+            for r in k + 1..m {
+                let v = t[r * w + k].mag();
+                if v > best {
+                    best = v;
+                    p = r;
+                }
+            }
+            if !(best > 0.0) || !best.is_finite() {
+                return None;
+            }
+            if p != k {
+                for c in 0..w {
+                    t.swap(k * w + c, p * w + c);
+                }
+            }
+            let piv = t[k * w + k];
+            for c in k..w {
+                t[k * w + c] = t[k * w + c].div(piv);
+            }
+            for r in 0..m {
+                if r == k {
+                    continue;
+                }
+                let f = t[r * w + k];
+                if f.mag() == 0.0 {
+                    continue;
+                }
+                for c in k..w {
+                    let d = f.mul(t[k * w + c]);
+                    t[r * w + c] = t[r * w + c].sub(d);
+                }
+            }
+        }
+        let mut inv = vec![Cdd::zero(); m * m];
+        for i in 0..m {
+            for j in 0..m {
+                inv[i * m + j] = t[i * w + m + j];
+            }
+        }
+        Some(inv)
+    }
+}
+
+// ------------------------------------------------------------------ reference
+
+mod reference {
+    use super::*;
+
+    /// (confluent) Vandermonde matrix in the monomial basis: row 2i (or i) = [x_i^k], row 2i+1 = [k x_i^(k-1)]
+    pub fn vandermonde(xs: &[C64], hermite: bool) -> DMatrix<C64> {
+        let n = xs.len();
+        let m = if hermite { 2 * n } else { n };
+        let mut v = DMatrix::<C64>::zeros(m, m);
+        for (i, x) in xs.iter().enumerate() {
+            let mut pw = vec![C64::new(1.0, 0.0); m];
+            for k in 1..m {
+                pw[k] = pw[k - 1] * x;
+            }
+            for k in 0..m {
+                if hermite {
+                    v[(2 * i, k)] = pw[k];
+                    v[(2 * i + 1, k)] = if k == 0 { zc() } else { pw[k - 1] * k as f64 };
+                } else {
+                    v[(i, k)] = pw[k];
+                }
+            }
+        }
+        v
+    }
+
+    pub struct Ref {
+        /// 2-norm condition number from the SVD, clamped into the interval that the exactly computed
+        /// Frobenius condition number kappa_F allows (kappa_F / m <= kappa_2 <= kappa_F)
+        pub kappa: f64,
+        pub kappa_svd: f64,
+        pub kappa_frobenius: f64,
+        /// V^-1 in double-double arithmetic
+        inv: Vec<dd::Cdd>,
+        m: usize,
+    }
+
+    impl Ref {
+        /// c = V^-1 data with the double-double inverse: exact to about 1e-30 kappa, i.e. the exact
+        /// interpolating polynomial of the f64 data for all practical purposes
+        pub fn solve(&self, data: &[C64]) -> Vec<C64> {
+            let m = self.m;
+            (0..m)
+                .map(|i| {
+                    let mut acc = dd::Cdd::zero();
+                    for j in 0..m {
+                        acc = acc.add(self.inv[i * m + j].mul(dd::Cdd::from_c(data[j])));
+                    }
+                    acc.to_c()
+                })
+                .collect()
+        }
+    }
+
+    pub fn analyse(xs: &[C64], hermite: bool) -> Option<Ref> {
+        let v = vandermonde(xs, hermite);
+        let m = v.nrows();
+        // exact (double-double) entries: powers of the nodes are recomputed in double-double
+        let mut a = vec![dd::Cdd::zero(); m * m];
+        for (i, x) in xs.iter().enumerate() {
+            let xd = dd::Cdd::from_c(*x);
+            let mut pw = vec![dd::Cdd::one(); m];
+            for k in 1..m {
+                pw[k] = pw[k - 1].mul(xd);
+            }
+            for k in 0..m {
+                if hermite {
+                    a[(2 * i) * m + k] = pw[k];
+                    a[(2 * i + 1) * m + k] = if k == 0 { dd::Cdd::zero() } else { pw[k - 1].scale(k as f64) };
+                } else {
+                    a[i * m + k] = pw[k];
+                }
+            }
+        }
+        let inv = dd::invert(&a, m)?;
+        let fro = |w: &[dd::Cdd]| w.iter().map(|z| z.to_c().norm_sqr()).sum::<f64>().sqrt();
+        let kappa_frobenius = fro(&a) * fro(&inv);
+        let svd = v.svd(false, false);
+        let smax = svd.singular_values.iter().fold(0.0f64, |a, b| a.max(*b));
+        let smin = svd.singular_values.iter().fold(f64::INFINITY, |a, b| a.min(*b));
+        let kappa_svd = smax / smin;
+        let lo = kappa_frobenius / m as f64;
+        let kappa = if !kappa_svd.is_finite() {
+            kappa_frobenius
+        } else if kappa_svd < 0.99 * lo {
+            lo
+        } else if kappa_svd > 1.01 * kappa_frobenius {
+            kappa_frobenius
+        } else {
+            kappa_svd
+        };
+        Some(Ref { kappa, kappa_svd, kappa_frobenius, inv, m })
+    }
+
+    /// value and derivative of an ascending-coefficient polynomial
+    pub fn polyval(c: &[C64], x: C64) -> (C64, C64) {
+        let mut v = zc();
+        let mut dv = zc();
+        for k in (0..c.len()).rev() {
+            dv = dv * x + v;
+            v = v * x + c[k];
+        }
+        (v, dv)
+    }
+}
+
+// ------------------------------------------------------------------ cases
+
+#[derive(Clone, Copy, PartialEq, Eq, Debug)]
+enum Data {
+    /// sampled from a polynomial of full admissible degree
+    FullDegree,
+    /// sampled from a polynomial of lower degree (leading coefficients of the interpolant vanish)
+    LowerDegree,
+    /// sampled from a sparse polynomial whose small coefficients straddle the zeroing tolerance
+    Straddle,
+    Arbitrary,
+}
+
+#[derive(Clone)]
+struct Case {
+    hermite: bool,
+    xs: Vec<C64>,
+    ys: Vec<C64>,
+    ds: Vec<C64>,
+    tol: f64,
+    data: Data,
+    /// generating polynomial (ascending), when sampled
+    poly: Option<Vec<C64>>,
+}
+
+impl Case {
+    fn json<N: Fld>(&self) -> J {
+        let mut j = J::obj().set("routine", if self.hermite { "hermite" } else { "lagrange" }).set("field", N::NAME).set("xs", cs_json(&self.xs, N::COMPLEX)).set("ys", cs_json(&self.ys, N::COMPLEX));
+        if self.hermite {
+            j.put("derivs", cs_json(&self.ds, N::COMPLEX));
+        }
+        j.put("tol", self.tol);
+        j.put("data", format!("{:?}", self.data));
+        if let Some(p) = &self.poly {
+            j.put("sampled_polynomial_ascending", cs_json(p, N::COMPLEX));
+        }
+        j
+    }
+    fn permuted(&self, perm: &[usize]) -> Case {
+        let mut c = self.clone();
+        c.xs = perm.iter().map(|i| self.xs[*i]).collect();
+        c.ys = perm.iter().map(|i| self.ys[*i]).collect();
+        c.ds = perm.iter().map(|i| self.ds[*i]).collect();
+        c
+    }
+}
+
+fn gen_nodes(rng: &mut Rng, n: usize, complex: bool) -> Vec<C64> {
+    let style = rng.below(8);
+    if style == 0 && n >= 2 {
+        // equally spaced on a random sub-interval, separation >= 0.2
+        let h = rng.r(0.2, 4.0 / (n as f64 - 1.0)).min(4.0 / (n as f64 - 1.0));
+        let a = rng.r(-2.0, 2.0 - h * (n as f64 - 1.0));
+        let mut v: Vec<C64> = (0..n).map(|i| C64::new(a + h * i as f64, 0.0)).collect();
+        rng.shuffle(&mut v);
+        return v;
+    }
+    if style == 1 && n >= 2 && n <= 8 {
+        // Chebyshev points of [-2,2] (separation of the outer pair is 4 sin^2(pi/(4n)) * 2 >= 0.2 up to n = 8? checked below)
+        let v: Vec<C64> = (0..n).map(|i| C64::new(2.0 * ((2 * i + 1) as f64 * std::f64::consts::PI / (2 * n) as f64).cos(), 0.0)).collect();
+        if separated(&v) {
+            let mut v = v;
+            rng.shuffle(&mut v);
+            return v;
+        }
+    }
+    let mut v: Vec<C64> = vec![];
+    if style == 2 {
+        v.push(zc()); // a node exactly at the origin
+    }
+    let real_nodes = !complex || rng.chance(0.25);
+    let mut guard = 0;
+    while v.len() < n {
+        guard += 1;
+        if guard > 100_000 {
+            v.clear(); // start over (never seen; keeps the loop finite in principle)
+            guard = 0;
+        }
+        let z = if real_nodes {
+            C64::new(rng.r(-2.0, 2.0), 0.0)
+        } else {
+            let z = C64::new(rng.r(-2.0, 2.0), rng.r(-2.0, 2.0));
+            if z.norm() > 2.0 {
+                continue;
+            }
+            z
+        };
+        if v.iter().all(|w| (w - z).norm() >= 0.2) {
+            v.push(z);
+        }
+    }
+    v
+}
+
+fn separated(v: &[C64]) -> bool {
+    for i in 0..v.len() {
+        for j in 0..i {
+            if (v[i] - v[j]).norm() < 0.2 {
+                return false;
+            }
+        }
+    }
+    true
+}
+
+fn gen_case(rng: &mut Rng, hermite: bool, complex: bool, n: usize, scale: f64, tol: f64) -> Case {
+    let xs = gen_nodes(rng, n, complex);
+    let m = if hermite { 2 * n } else { n };
+    let cplx = |rng: &mut Rng, s: f64| C64::new(s * rng.r(-1.0, 1.0), if complex { s * rng.r(-1.0, 1.0) } else { 0.0 });
+    let data = match rng.below(10) {
+        0..=3 => Data::FullDegree,
+        4 | 5 => Data::LowerDegree,
+        6 => Data::Straddle,
+        _ => Data::Arbitrary,
+    };
+    let (ys, ds, poly) = match data {
+        Data::Arbitrary => {
+            let ys: Vec<C64> = (0..n).map(|_| cplx(rng, scale)).collect();
+            let ds: Vec<C64> = (0..n).map(|_| cplx(rng, scale)).collect();
+            (ys, ds, None)
+        }
+        _ => {
+            let mut p: Vec<C64> = (0..m).map(|_| cplx(rng, scale)).collect();
+            match data {
+                Data::LowerDegree => {
+                    let deg = rng.below(m); // 0..m-1, strictly fewer coefficients when deg < m-1
+                    for k in deg + 1..m {
+                        p[k] = zc();
+                    }
+                }
+                Data::Straddle => {
+                    for k in 0..m {
+                        match rng.below(4) {
+                            0 => p[k] = zc(),
+                            1 => {
+                                let s = tol * rng.log10(-1.0, 1.0);
+                                p[k] = cplx(rng, s)
+                            }
+                            _ => {}
+                        }
+                    }
+                }
+                _ => {}
+            }
+            let ys: Vec<C64> = xs.iter().map(|x| reference::polyval(&p, *x).0).collect();
+            let ds: Vec<C64> = xs.iter().map(|x| reference::polyval(&p, *x).1).collect();
+            (ys, ds, Some(p))
+        }
+    };
+    Case { hermite, xs, ys, ds, tol, data, poly }
+}
+
+fn call<N: Fld>(c: &Case) -> Guarded<Result<Polynomial<N>, String>> {
+    let xs: Vec<N> = c.xs.iter().map(|v| N::mk(*v)).collect();
+    let ys: Vec<N> = c.ys.iter().map(|v| N::mk(*v)).collect();
+    let ds: Vec<N> = c.ds.iter().map(|v| N::mk(*v)).collect();
+    let (h, tol) = (c.hermite, c.tol);
+    probe::guard(move || if h { hermite::<N>(&xs, &ys, &ds, tol) } else { lagrange::<N>(&xs, &ys, tol) })
+}
+
+struct Outcome<N: Fld> {
+    p: Polynomial<N>,
+    order: usize,
+    coef: Vec<C64>,
+}
+
+fn run_lib<N: Fld>(rep: &mut Report, name: &str, c: &Case, what: &str) -> Option<Outcome<N>> {
+    rep.eval();
+    match call::<N>(c) {
+        Guarded::Ok(Ok(p)) => {
+            let order = p.order();
+            let coef = (0..=order).map(|k| p.get_coefficient(k).c()).collect();
+            Some(Outcome { p, order, coef })
+        }
+        Guarded::Ok(Err(e)) => {
+            rep.violation(&format!("{}/valid-input-rejected", name), c.json::<N>().set("point_order", what), format!("{} distinct nodes, matching lengths: Err({})", c.xs.len(), e));
+            None
+        }
+        Guarded::Panic(m, l) => {
+            rep.violation(&format!("{}/panic", name), c.json::<N>().set("point_order", what), format!("panicked: '{}' at {}", m, l));
+            None
+        }
+        Guarded::Budget => None,
+    }
+}
+
+fn run_case<N: Fld>(rep: &mut Report, rng: &mut Rng, c: &Case, stage: &str) {
+    let rname = if c.hermite { "hermite" } else { "lagrange" };
+    let name = format!("{}/{}", rname, if N::COMPLEX { "complex" } else { "f64" });
+    let n = c.xs.len();
+    let m = if c.hermite { 2 * n } else { n };
+    let kk = if c.hermite { KH } else { KL };
+    let kn = if c.hermite { KHN } else { KLN };
+    let tf = if N::COMPLEX { TF_COMPLEX } else { TF_REAL };
+    rep.count(&format!("{}/cases", name), 1);
+    rep.count(&format!("{}/cases_n{}", rname, n), 1);
+    rep.count(&format!("{}/data_{:?}", rname, c.data), 1);
+    let out = match run_lib::<N>(rep, rname, c, "as generated") {
+        Some(o) => o,
+        None => return,
+    };
+    let rf = match reference::analyse(&c.xs, c.hermite) {
+        Some(r) => r,
+        None => {
+            rep.inconclusive("reference: Vandermonde matrix numerically singular in double-double");
+            return;
+        }
+    };
+    let kappa = rf.kappa;
+    rep.max(&format!("{}/kappa", rname), kappa);
+    rep.max("kappa_svd_over_kappa_frobenius", rf.kappa_svd / rf.kappa_frobenius);
+    rep.min("kappa_svd_times_m_over_kappa_frobenius", rf.kappa_svd * m as f64 / rf.kappa_frobenius);
+    if rf.kappa_svd != kappa {
+        rep.count("kappa_svd_outside_exact_frobenius_bracket", 1);
+    }
+    rep.count(&format!("{}/kappa_decade_{:02}", rname, kappa.log10().floor().max(0.0) as i64), 1);
+    // interleaved data vector in the row order of V
+    let mut datav = vec![];
+    for i in 0..n {
+        datav.push(c.ys[i]);
+        if c.hermite {
+            datav.push(c.ds[i]);
+        }
+    }
+    let datamax = datav.iter().fold(0.0f64, |a, b| a.max(b.norm()));
+    // the exact interpolating polynomial of the f64 data handed to the library
+    let cref: Vec<C64> = rf.solve(&datav);
+    let crefmax = cref.iter().fold(0.0f64, |a, b| a.max(b.norm()));
+    let case = || c.json::<N>().set("kappa", kappa).set("order", out.order).set("coefficients_ascending", cs_json(&out.coef, N::COMPLEX)).set("reference_coefficients_ascending", cs_json(&cref, N::COMPLEX));
+
+    // 1. degree bound
+    if out.order > m - 1 {
+        rep.violation(&format!("{}/degree", rname), case(), format!("order() = {} exceeds the degree bound {} for {} nodes", out.order, m - 1, n));
+        return;
+    }
+    // 2. coefficients
+    let cunit = EPS * kappa * crefmax;
+    let cbound = kk * cunit + tf * c.tol;
+    // Observation used for attribution: the returned polynomial lacks leading terms which the exact interpolant
+    // has with a magnitude clearly above the zeroing tolerance. Every failure seen in such a case is reported
+    // under the one signature <routine>/leading-coefficient-missing.
+    let dropped: Option<(usize, f64)> = (out.order + 1..m).rev().map(|k| (k, cref[k].norm())).find(|(_, a)| *a > 1.01 * tf * c.tol + 8.0 * cunit);
+    let missing_sig = format!("{}/leading-coefficient-missing", rname);
+    let sig = |base: &str| -> String {
+        if dropped.is_some() {
+            missing_sig.clone()
+        } else {
+            format!("{}/{}", rname, base)
+        }
+    };
+    let missing_note = match dropped {
+        Some((k, a)) => format!(" [order() = {} but the exact interpolant has |coefficient| {:e} at x^{}, zeroing tolerance {:e}: leading terms above the tolerance were dropped]", out.order, a, k, c.tol),
+        None => String::new(),
+    };
+    if dropped.is_some() {
+        rep.count(&format!("{}/cases_with_leading_terms_above_tol_dropped", rname), 1);
+    }
+    let mut missing_leading = false;
+    let mut coef_bad: Option<(usize, f64)> = None;
+    for k in 0..m {
+        let got = out.coef.get(k).copied().unwrap_or(zc());
+        let err = (got - cref[k]).norm();
+        // rounding part of the error in units of eps kappa |cref|: what is left after the zeroing allowance
+        let excess = (err - tf * c.tol).max(0.0);
+        rep.max(&format!("{}/coef_err_over_eps_kappa_cmax", name), if excess == 0.0 { 0.0 } else { excess / cunit });
+        if !(err <= cbound) {
+            if k > out.order {
+                missing_leading = true;
+            }
+            if coef_bad.is_none() {
+                coef_bad = Some((k, err));
+            }
+        }
+    }
+    rep.count(&format!("{}/coefficient_vectors_compared", name), 1);
+    if let Some((k, err)) = coef_bad {
+        if missing_leading {
+            let kmax = (0..m).rev().find(|k| cref[*k].norm() > cbound).unwrap_or(0);
+            rep.violation(
+                &format!("{}/leading-coefficient-missing", rname),
+                case(),
+                format!("order() = {} but the interpolating polynomial has a coefficient {:e} at x^{} (zeroing tolerance {:e}, bound {:e}): leading terms above the tolerance were dropped", out.order, cref[kmax].norm(), kmax, c.tol, cbound),
+            );
+            rep.count(&format!("{}/node_checks_skipped_after_missing_leading", rname), 1);
+            return;
+        }
+        let got = out.coef.get(k).copied().unwrap_or(zc());
+        rep.violation(
+            &sig("coefficients"),
+            case().set("power", k),
+            format!("coefficient of x^{}: {:e}{:+e}i, interpolating polynomial has {:e}{:+e}i (|error| {:e} > {} eps kappa |c|_inf + {} tol = {:e}; kappa = {:e})", k, got.re, got.im, cref[k].re, cref[k].im, err, kk, tf, cbound, kappa),
+        );
+    }
+    // 2b. uniqueness as stated: data sampled from a polynomial within the degree bound give that polynomial back
+    if let Some(p) = &c.poly {
+        let pmax = p.iter().fold(0.0f64, |a, b| a.max(b.norm()));
+        let punit = EPS * kappa * pmax;
+        let mut worst = 0.0f64;
+        let mut wk = 0;
+        let mut refdiff = 0.0f64;
+        for k in 0..m {
+            let got = out.coef.get(k).copied().unwrap_or(zc());
+            let e = (got - p[k]).norm();
+            if e > worst || e.is_nan() {
+                worst = e;
+                wk = k;
+            }
+            refdiff = refdiff.max((cref[k] - p[k]).norm());
+        }
+        // how far the rounding of the samples moves the exact interpolant away from the sampled polynomial
+        rep.max(&format!("{}/sampling_shift_over_eps_kappa_cmax", rname), if refdiff == 0.0 { 0.0 } else { refdiff / punit });
+        let ex = (worst - tf * c.tol).max(0.0);
+        rep.max(&format!("{}/sampled_poly_err_over_eps_kappa_cmax", name), if ex == 0.0 { 0.0 } else { ex / punit });
+        rep.count(&format!("{}/sampled_polynomials_compared", name), 1);
+        if !(worst <= kk * punit + tf * c.tol) {
+            let got = out.coef.get(wk).copied().unwrap_or(zc());
+            rep.violation(
+                &sig("sampled-polynomial-not-recovered"),
+                case().set("power", wk),
+                format!("data sampled from a polynomial of degree <= {}: coefficient of x^{} is {:e}{:+e}i, sampled polynomial has {:e}{:+e}i (|error| {:e} > {:e}; kappa = {:e}){}", m - 1, wk, got.re, got.im, p[wk].re, p[wk].im, worst, kk * punit + tf * c.tol, kappa, missing_note),
+            );
+        }
+    }
+    // 3. nodes, through the API
+    for i in 0..n {
+        let x = c.xs[i];
+        let (v1, (v2, d)) = match probe::guard(|| (out.p.evaluate(N::mk(x)), out.p.evaluate_derivative(N::mk(x)))) {
+            Guarded::Ok((a, (b, d))) => (a.c(), (b.c(), d.c())),
+            Guarded::Panic(mm, l) => {
+                rep.violation(&format!("{}/panic", rname), case(), format!("evaluation of the returned polynomial panicked: '{}' at {}", mm, l));
+                return;
+            }
+            Guarded::Budget => return,
+        };
+        let ax = x.norm();
+        let mut s0 = 0.0; // sum_k |x|^k
+        let mut s1 = 0.0; // sum_k k |x|^(k-1)
+        let mut pw = 1.0;
+        for k in 0..m {
+            s0 += pw;
+            if k + 1 < m {
+                s1 += (k + 1) as f64 * pw;
+            }
+            pw *= ax;
+        }
+        let vunit = EPS * kappa * datamax;
+        let ev = (v1 - c.ys[i]).norm().max((v2 - c.ys[i]).norm());
+        let exv = (ev - tf * c.tol * s0).max(0.0);
+        rep.max(&format!("{}/node_value_err_over_eps_kappa_datamax", name), if exv == 0.0 { 0.0 } else { exv / vunit });
+        rep.count(&format!("{}/node_values_checked", name), 1);
+        if !(ev <= kn * vunit + tf * c.tol * s0) {
+            rep.violation(
+                &sig("node-value"),
+                case().set("node", i),
+                format!("p(x_{}) = {:e}{:+e}i (evaluate) / {:e}{:+e}i (evaluate_derivative), given value {:e}{:+e}i (|error| {:e} > {:e}; kappa = {:e}){}", i, v1.re, v1.im, v2.re, v2.im, c.ys[i].re, c.ys[i].im, ev, kn * vunit + tf * c.tol * s0, kappa, missing_note),
+            );
+            break;
+        }
+        if c.hermite {
+            let ed = (d - c.ds[i]).norm();
+            let exd = (ed - tf * c.tol * s1).max(0.0);
+            rep.max(&format!("{}/node_derivative_err_over_eps_kappa_datamax", name), if exd == 0.0 { 0.0 } else { exd / vunit });
+            rep.count(&format!("{}/node_derivatives_checked", name), 1);
+            if !(ed <= kn * vunit + tf * c.tol * s1) {
+                rep.violation(
+                    &sig("node-derivative"),
+                    case().set("node", i),
+                    format!("p'(x_{}) = {:e}{:+e}i, given derivative {:e}{:+e}i (|error| {:e} > {:e}; kappa = {:e}){}", i, d.re, d.im, c.ds[i].re, c.ds[i].im, ed, kn * vunit + tf * c.tol * s1, kappa, missing_note),
+                );
+                break;
+            }
+        }
+    }
+    // 4. order of the points
+    let mut permuted_runs = 0;
+    if n >= 2 {
+        let mut sorted: Vec<usize> = (0..n).collect();
+        sorted.sort_by(|a, b| (c.xs[*a].re, c.xs[*a].im).partial_cmp(&(c.xs[*b].re, c.xs[*b].im)).unwrap());
+        let mut reversed = sorted.clone();
+        reversed.reverse();
+        let mut shuffled: Vec<usize> = (0..n).collect();
+        rng.shuffle(&mut shuffled);
+        for (perm, what) in [(sorted, "sorted by abscissa"), (reversed, "sorted descending"), (shuffled, "shuffled")] {
+            if perm.iter().enumerate().all(|(i, p)| i == *p) {
+                continue;
+            }
+            let c2 = c.permuted(&perm);
+            let o2 = match run_lib::<N>(rep, rname, &c2, what) {
+                Some(o) => o,
+                None => continue,
+            };
+            permuted_runs += 1;
+            rep.count(&format!("{}/permuted_runs", name), 1);
+            let mut worst = 0.0f64;
+            let mut wk = 0;
+            for k in 0..m.max(o2.order + 1) {
+                let a = out.coef.get(k).copied().unwrap_or(zc());
+                let b = o2.coef.get(k).copied().unwrap_or(zc());
+                let e = (a - b).norm();
+                if e > worst || e.is_nan() {
+                    worst = e;
+                    wk = k;
+                }
+            }
+            let ex = (worst - PERM * tf * c.tol).max(0.0);
+            rep.max(&format!("{}/permutation_diff_over_eps_kappa_cmax", name), if ex == 0.0 { 0.0 } else { ex / cunit });
+            if !(worst <= PERM * cbound) || o2.order > m - 1 {
+                rep.violation(
+                    &sig("order-dependence"),
+                    case().set("permutation", J::Arr(perm.iter().map(|p| J::from(*p)).collect::<Vec<_>>())).set("permuted_order", o2.order).set("permuted_coefficients_ascending", cs_json(&o2.coef, N::COMPLEX)),
+                    format!("same points listed {}: coefficient of x^{} differs by {:e} > {:e} (order {} vs {}){}", what, wk, worst, PERM * cbound, out.order, o2.order, missing_note),
+                );
+                break;
+            }
+        }
+    }
+    if n >= 3 && permuted_runs > 0 {
+        let mut h = CaseHash::new("c15").u(c.hermite as u64).u(N::COMPLEX as u64).f(c.tol);
+        for i in 0..n {
+            h = h.f(c.xs[i].re).f(c.xs[i].im).f(c.ys[i].re).f(c.ys[i].im).f(c.ds[i].re).f(c.ds[i].im);
+        }
+        rep.nontrivial(h.0);
+        rep.count(&format!("{}/nontrivial", name), 1);
+        if rep.wants_sample() && n <= 4 {
+            rep.sample(case().set("stage", stage).set("permuted_runs", permuted_runs));
+        }
+    }
+}
+
+// ------------------------------------------------------------------ Err cases
+
+fn err_case<N: Fld>(rep: &mut Report, rng: &mut Rng, idx: u64) {
+    let rnd = |rng: &mut Rng, n: usize| -> Vec<C64> { (0..n).map(|_| C64::new(rng.r(-1.0, 1.0), if N::COMPLEX { rng.r(-1.0, 1.0) } else { 0.0 })).collect() };
+    let a = rng.below(9);
+    let xs = if a == 0 { vec![] } else { gen_nodes(rng, a.min(8), N::COMPLEX) };
+    let a = xs.len();
+    let mut b = rng.below(10);
+    if b == a {
+        b = a + 1;
+    }
+    let to_n = |v: &[C64]| -> Vec<N> { v.iter().map(|z| N::mk(*z)).collect() };
+    let judge = |rep: &mut Report, sig: &str, what: String, g: Guarded<Result<Polynomial<N>, String>>, case: J| {
+        rep.eval();
+        rep.count(&format!("err/{}", sig), 1);
+        match g {
+            Guarded::Ok(Err(_)) => rep.count("err/returned_err", 1),
+            Guarded::Ok(Ok(p)) => rep.violation(&format!("err/{}", sig), case, format!("{}: returned Ok (order {}), the property requires Err", what, p.order())),
+            Guarded::Panic(m, l) => rep.violation(&format!("err/{}", sig), case, format!("{}: panicked ('{}' at {}), the property requires Err", what, m, l)),
+            Guarded::Budget => {}
+        }
+    };
+    let xn = to_n(&xs);
+    if idx % 3 == 0 {
+        let ys = rnd(rng, b);
+        let yn = to_n(&ys);
+        let case = J::obj().set("routine", "lagrange").set("field", N::NAME).set("xs", cs_json(&xs, N::COMPLEX)).set("ys", cs_json(&ys, N::COMPLEX)).set("tol", 1e-10);
+        judge(rep, "lagrange-mismatched-lengths", format!("lagrange with {} abscissae and {} values", a, b), probe::guard(|| lagrange::<N>(&xn, &yn, 1e-10)), case);
+    } else {
+        // hermite: values mismatched, derivatives mismatched, or both
+        let (ly, ld) = match idx % 3 {
+            1 => (b, a),
+            _ => {
+                if rng.bool() {
+                    (a, b)
+                } else {
+                    (b, rng.below(10))
+                }
+            }
+        };
+        let ys = rnd(rng, ly);
+        let ds = rnd(rng, ld);
+        let (yn, dn) = (to_n(&ys), to_n(&ds));
+        let case = J::obj().set("routine", "hermite").set("field", N::NAME).set("xs", cs_json(&xs, N::COMPLEX)).set("ys", cs_json(&ys, N::COMPLEX)).set("derivs", cs_json(&ds, N::COMPLEX)).set("tol", 1e-10);
+        judge(rep, "hermite-mismatched-lengths", format!("hermite with {} abscissae, {} values, {} derivatives", a, ly, ld), probe::guard(|| hermite::<N>(&xn, &yn, &dn, 1e-10)), case);
+    }
+}
+
+// ------------------------------------------------------------------ interface
 
 pub fn meta() -> CheckMeta {
-    CheckMeta { id: "C15", level: "exploration", rule: "stub".into(), assumptions: vec![], exhaustive: false, stuck_is_violation: false }
+    CheckMeta {
+        id: "C15",
+        level: "exploration",
+        rule: "cases: lagrange / hermite x f64 / Complex<f64>, 1..8 nodes with pairwise separation >= 0.2 in [-2,2] (real) or the disc of radius 2 (complex; also equally spaced, Chebyshev, a node at exactly 0), data sampled from a polynomial of full admissible degree / of lower degree / with coefficients straddling the zeroing tolerance, or arbitrary; data scale 1e-3..1e3 (stage small-scale: 1e-11.5..1e-9.5 with tolerance <= 3e-13); tolerance 1e-14..1e-6; each case is run with its points as generated (random order), sorted, reversed and shuffled. A case is a distinct non-trivial case when it has >= 3 nodes and at least one re-ordered run was compared (hash of routine, field, nodes, data, tolerance); complex cases are counted separately".into(),
+        assumptions: vec![
+            format!("bounds: coefficients K eps kappa |c|_inf + TF tol with K = {} (Lagrange) / {} (Hermite); node values K' eps kappa max|data| + TF tol sum|x|^k (derivatives: sum k|x|^(k-1)) with K' = {} / {}; TF = {} (real) / {} (complex: leading coefficients are purged component-wise); kappa = 2-norm condition number of the (confluent) Vandermonde matrix; re-ordering: {} x the coefficient bound", KL, KH, KLN, KHN, TF_REAL, TF_COMPLEX, PERM),
+            "reference coefficients: V^-1 data with V^-1 from a Gauss-Jordan inversion in double-double arithmetic (exact interpolant of the f64 data to ~1e-30 kappa); kappa from the nalgebra SVD, clamped into [kappa_F/m, kappa_F] with the Frobenius condition number kappa_F computed from that inverse".into(),
+            "empty input (0 nodes, equal lengths) is outside the property (1..8 nodes) and only counted".into(),
+        ],
+        exhaustive: false,
+        stuck_is_violation: false,
+    }
 }
-pub fn stages(_ctx: &Ctx) -> Vec<Stage> {
-    vec![]
+
+fn dispatch(rep: &mut Report, rng: &mut Rng, i: u64, n: usize, scale: f64, tol: f64, stage: &str) {
+    let hermite = i % 2 == 1;
+    let complex = (i / 2) % 2 == 1;
+    let c = gen_case(rng, hermite, complex, n, scale, tol);
+    if complex {
+        run_case::<C64>(rep, rng, &c, stage);
+    } else {
+        run_case::<f64>(rep, rng, &c, stage);
+    }
 }
-pub fn thresholds(_ctx: &Ctx, _rep: &Report) -> Vec<Threshold> {
-    vec![Threshold { what: "check not built".into(), required: 1.0, observed: 0.0 }]
+
+pub fn stages(ctx: &Ctx) -> Vec<Stage> {
+    let seed = ctx.seed;
+    let tier = ctx.tier;
+    let mut st = vec![];
+    // anchors: every n = 1..8 x routine x field x 4 tolerances, fixed seed
+    st.push(Stage::new("anchors", 8 * 4 * 4, move |i, rep| {
+        let mut rng = Rng::for_case(777, "c15-anchor", i);
+        let n = 1 + ((i / 4) % 8) as usize;
+        let tol = [1e-14, 1e-11, 1e-8, 1e-6][(i / 32) as usize];
+        dispatch(rep, &mut rng, i, n, 1.0, tol, "anchors");
+    }));
+    st.push(Stage::new("random", tier.pick(20_000, 200_000), move |i, rep| {
+        let mut rng = Rng::for_case(seed, "c15-random", i);
+        let n = 1 + rng.below(8);
+        let scale = rng.log10(-3.0, 3.0);
+        let tol = rng.log10(-14.0, -6.0);
+        dispatch(rep, &mut rng, i, n, scale, tol, "random");
+    }));
+    // small data: the interpolant's coefficients lie between the zeroing tolerance and 1e-9
+    st.push(Stage::new("small-scale", tier.pick(1_000, 8_000), move |i, rep| {
+        let mut rng = Rng::for_case(seed, "c15-small", i);
+        let n = 1 + rng.below(5);
+        let scale = rng.log10(-11.5, -9.5);
+        let tol = rng.log10(-14.0, -12.5);
+        dispatch(rep, &mut rng, i, n, scale, tol, "small-scale");
+    }));
+    st.push(Stage::new("errors", tier.pick(600, 6_000), move |i, rep| {
+        let mut rng = Rng::for_case(seed, "c15-err", i);
+        if (i / 3) % 2 == 1 {
+            err_case::<C64>(rep, &mut rng, i);
+        } else {
+            err_case::<f64>(rep, &mut rng, i);
+        }
+    }));
+    // outside the property: empty input. Observed and counted only.
+    st.push(Stage::new("empty-input-observation", 1, move |_i, rep| {
+        let e: Vec<f64> = vec![];
+        let (e1, e2, e3) = (e.clone(), e.clone(), e.clone());
+        let g = probe::guard(move || lagrange::<f64>(&e1, &e2, 1e-10).map(|p| p.order()));
+        rep.count(&format!("outside-property/lagrange_empty_input_{}", match g { Guarded::Ok(Ok(_)) => "ok", Guarded::Ok(Err(_)) => "err", _ => "panics" }), 1);
+        let e1 = e.clone();
+        let g = probe::guard(move || hermite::<f64>(&e1, &e3, &e, 1e-10).map(|p| p.order()));
+        rep.count(&format!("outside-property/hermite_empty_input_{}", match g { Guarded::Ok(Ok(_)) => "ok", Guarded::Ok(Err(_)) => "err", _ => "panics" }), 1);
+    }));
+    st
+}
+
+pub fn thresholds(ctx: &Ctx, rep: &Report) -> Vec<Threshold> {
+    let mut t = vec![];
+    for r in ["lagrange", "hermite"] {
+        for f in ["f64", "complex"] {
+            let name = format!("{}/{}", r, f);
+            t.push(Threshold { what: format!("{} cases", name), required: ctx.tier.pick(4_500.0, 45_000.0), observed: rep.counter(&format!("{}/cases", name)) as f64 });
+            t.push(Threshold { what: format!("{} cases with >= 3 nodes and re-ordered runs", name), required: ctx.tier.pick(2_500.0, 25_000.0), observed: rep.counter(&format!("{}/nontrivial", name)) as f64 });
+            t.push(Threshold { what: format!("{} re-ordered runs compared", name), required: ctx.tier.pick(7_500.0, 75_000.0), observed: rep.counter(&format!("{}/permuted_runs", name)) as f64 });
+            t.push(Threshold { what: format!("{} node values checked", name), required: ctx.tier.pick(15_000.0, 150_000.0), observed: rep.counter(&format!("{}/node_values_checked", name)) as f64 });
+        }
+        for n in 1..=8 {
+            t.push(Threshold { what: format!("{} cases with {} nodes", r, n), required: ctx.tier.pick(800.0, 8_000.0), observed: rep.counter(&format!("{}/cases_n{}", r, n)) as f64 });
+        }
+        for d in ["FullDegree", "LowerDegree", "Straddle", "Arbitrary"] {
+            t.push(Threshold { what: format!("{} cases with {} data", r, d), required: ctx.tier.pick(500.0, 5_000.0), observed: rep.counter(&format!("{}/data_{}", r, d)) as f64 });
+        }
+        t.push(Threshold { what: format!("{}: well-conditioned cases (kappa < 100), where the bounds are tightest", r), required: ctx.tier.pick(1_000.0, 10_000.0), observed: (rep.counter(&format!("{}/kappa_decade_00", r)) + rep.counter(&format!("{}/kappa_decade_01", r))) as f64 });
+    }
+    t.push(Threshold { what: "lagrange mismatched-length cases".into(), required: ctx.tier.pick(200.0, 2_000.0), observed: rep.counter("err/lagrange-mismatched-lengths") as f64 });
+    t.push(Threshold { what: "hermite mismatched-length cases".into(), required: ctx.tier.pick(400.0, 4_000.0), observed: rep.counter("err/hermite-mismatched-lengths") as f64 });
+    t
 }
